@@ -2,7 +2,9 @@
 import json
 import multiprocessing as mp
 import os
+import shutil
 import subprocess
+import tempfile
 import sys
 import time
 import traceback
@@ -206,6 +208,7 @@ def native_replay(recipe, timeout=120):
     env = dict(os.environ)
     repo = os.environ.get('VERIF_REPO', '/repo')
     env['PYTHONPATH'] = repo + os.pathsep + VERIF
+    scratch = env['TMPDIR'] = tempfile.mkdtemp(prefix='verif-replay-')
     try:
         p = subprocess.run(['/venv/bin/python', os.path.join(VERIF, 'contracts', 'replays.py')],
                            input=json.dumps(recipe), capture_output=True, text=True,
@@ -218,6 +221,8 @@ def native_replay(recipe, timeout=120):
         return out
     except subprocess.TimeoutExpired:
         return {'reproduced': None, 'error': 'replay timeout'}
+    finally:
+        shutil.rmtree(scratch, ignore_errors=True)
 
 
 # ---------------------------------------------------------------- findings
@@ -226,6 +231,7 @@ def run_standin(pid, tier, timeout=900):
     env = dict(os.environ)
     repo = os.environ.get('VERIF_REPO', '/repo')
     env['PYTHONPATH'] = repo + os.pathsep + VERIF
+    scratch = env['TMPDIR'] = tempfile.mkdtemp(prefix='verif-standin-')
     t0 = time.time()
     try:
         p = subprocess.run(['/venv/bin/python', os.path.join(VERIF, 'contracts', 'standins.py'), pid, tier],
@@ -240,6 +246,8 @@ def run_standin(pid, tier, timeout=900):
                           'some operation of the real code does not terminate' % timeout}]
     except Exception as e:
         out = [{'name': pid + '.standin', 'kind': 'bounded', 'verdict': 'error', 'detail': repr(e)}]
+    finally:
+        shutil.rmtree(scratch, ignore_errors=True)
     for r in out:
         r['ms'] = int((time.time() - t0) * 1000 / max(len(out), 1))
     return [Result(r.pop('name'), r.pop('kind'), r.pop('verdict'), **r) for r in out]
